@@ -37,6 +37,7 @@ RULE = (
     "(3) re-initialising does not raise. distinct = (solver, variant, joint types, force-law kinds, contact kinds, split "
     "position bucket); non-trivial = at least one split executed with >= 1 bilateral constraint, force law or contact"
 )
+RULE += " Before a rod session the process deep-copies a rod of another interpolation made with the same factory options."
 RULE += " Third copy variant: the copy is taken from the system that has just finished the whole uninterrupted run. Time origins are arbitrary (t0 != 0, splits exactly at t = 0.0 with dyadic steps). Sessions with a Cosserat rod (its coordinates, internal constraints and end joints are re-initialised) and with a user-defined nonholonomic constraint."
 COMPONENTS = {
     "real": ["System.deepcopy / set_new_initial_state / assemble", "all five solvers", "joints, force laws, contacts", "save_solution / load_solution (real files)"],
@@ -255,6 +256,16 @@ def execute(plan, out, log):
     tmpdir = None
     kinds = set()
     with sim.installed():
+        for rd in scene.get("rods", []):
+            # this process has copied another rod model before: same factory options, another interpolation
+            import copy as _copy
+            from ..rods import build_rod, INTERPOLATIONS
+
+            sp = rd["spec"]
+            others = [x for x in INTERPOLATIONS if x != sp["interp"] and (x != "SE3" or sp["degree"] == 1)]
+            decoy = build_rod(dict(sp, interp=others[sp["nel"] % len(others)], nel=1), name="decoy")
+            _copy.deepcopy(decoy)
+            out["probes"]["other_rod_model_copied_before"] += 1
         try:
             B = build(scene)
         except (AssertionError, RuntimeError, ValueError, np.linalg.LinAlgError) as e:
